@@ -586,6 +586,10 @@ pub struct Interp<'a> {
     /// value the accumulator holds after a load() statement, until the next statement that is
     /// not a store()
     pub acc: Option<i64>,
+    /// running digest of every decision taken and every value stored (which branch, which case,
+    /// which element, what was written where): two evaluation modes are told apart as soon as they
+    /// diverge anywhere, not only when their final states differ
+    pub flow: u64,
 }
 
 fn wrap16(v: i64, unsigned: bool) -> i64 {
@@ -607,7 +611,11 @@ fn wrap8(v: i64, signed: bool) -> i64 {
 impl<'a> Interp<'a> {
     pub fn new(p: &'a Program, mode: EvalMode, st: State, max_steps: u64) -> Interp<'a> {
         let n = p.funcs.len();
-        Interp { p, mode, st, steps: 0, max_steps, trace: vec![], depth: 0, entries: vec![0; n], acc: None }
+        Interp { p, mode, st, steps: 0, max_steps, trace: vec![], depth: 0, entries: vec![0; n], acc: None, flow: 0xcbf29ce484222325 }
+    }
+
+    fn note(&mut self, tag: u64, v: i64) {
+        self.flow = (self.flow ^ tag.wrapping_mul(0x9e3779b97f4a7c15) ^ (v as u64)).wrapping_mul(0x100000001b3).rotate_left(17);
     }
 
     fn tick(&mut self) -> Result<(), Abort> {
@@ -663,6 +671,7 @@ impl<'a> Interp<'a> {
 
     fn index_of(&mut self, e: &Expr) -> Result<i64, Abort> {
         let v = self.eval(e)?;
+        self.note(1, v.v);
         Ok(v.v)
     }
 
@@ -725,6 +734,7 @@ impl<'a> Interp<'a> {
 
     fn write_target(&mut self, t: &(Option<VarId>, usize, Ty), val: &Val) -> Result<Val, Abort> {
         let stored = t.2.wrap(val.v);
+        self.note(2 + ((t.0.map(|v| v as u64 + 2).unwrap_or(0)) << 8) + ((t.1 as u64) << 24), stored);
         match t.0 {
             None => {
                 if t.1 == 0 {
@@ -1089,6 +1099,7 @@ impl<'a> Interp<'a> {
             Stmt::Empty => Ok(Flow::Next),
             Stmt::If(c, t, e) => {
                 let cv = self.eval(c)?;
+                self.note(3, Self::truthy(&cv) as i64);
                 if Self::truthy(&cv) {
                     self.exec(t)
                 } else if let Some(e) = e {
@@ -1100,6 +1111,7 @@ impl<'a> Interp<'a> {
             Stmt::While(c, b) => loop {
                 self.tick()?;
                 let cv = self.eval(c)?;
+                self.note(4, Self::truthy(&cv) as i64);
                 if !Self::truthy(&cv) {
                     return Ok(Flow::Next);
                 }
@@ -1117,6 +1129,7 @@ impl<'a> Interp<'a> {
                     f => return Ok(f),
                 }
                 let cv = self.eval(c)?;
+                self.note(5, Self::truthy(&cv) as i64);
                 if !Self::truthy(&cv) {
                     return Ok(Flow::Next);
                 }
@@ -1129,6 +1142,7 @@ impl<'a> Interp<'a> {
                     self.tick()?;
                     if let Some(c) = c {
                         let cv = self.eval(c)?;
+                        self.note(6, Self::truthy(&cv) as i64);
                         if !Self::truthy(&cv) {
                             return Ok(Flow::Next);
                         }
@@ -1154,6 +1168,7 @@ impl<'a> Interp<'a> {
                     }
                 }
                 let n = cases.len();
+                self.note(7, start.map(|i| i as i64).unwrap_or(-1));
                 let begin = match start {
                     Some(i) => i,
                     None => {
@@ -1194,6 +1209,7 @@ impl<'a> Interp<'a> {
                 if let Some(e) = init {
                     let val = self.eval(e)?;
                     let ty = self.elem_ty(*v);
+                    self.note(8 + ((*v as u64) << 8), ty.wrap(val.v));
                     self.st.vals[*v][0] = ty.wrap(val.v);
                 }
                 Ok(Flow::Next)
